@@ -419,6 +419,20 @@ func (p *Parser) parseConstraintColumnList() ([]string, error) {
 
 // parseSelectStatement parses a SELECT statement
 func (p *Parser) parseSelectStatement() (ast.Statement, error) {
+	// Derived tables nest SELECT inside SELECT without passing through
+	// parseExpression: count every SELECT level against the depth limit so that
+	// "FROM (SELECT * FROM (SELECT ..." cannot exhaust the stack.
+	p.depth++
+	defer func() { p.depth-- }()
+	if p.depth > MaxRecursionDepth {
+		return nil, goerrors.RecursionDepthLimitError(
+			p.depth,
+			MaxRecursionDepth,
+			p.currentLocation(),
+			"",
+		)
+	}
+
 	// We've already consumed the SELECT token in matchType
 
 	// Check for DISTINCT or ALL keyword
